@@ -47,6 +47,11 @@ class Gen:
 
     def bytes_(self):
         r = self.r
+        x = r.random()
+        if x < 0.05:       # definite lengths on both sides of the 23/24 and 255/256 boundaries of CBOR heads (and multiples of 256)
+            return bytes([0x61 + r.randrange(26)]) * r.choice([22, 23, 24, 25, 255, 256, 257, 279, 280, 511, 512, 535])
+        if x < 0.054:      # ... and of the 65535/65536 boundary; also larger than the decoder's 4096-byte read buffer
+            return b"L" * r.choice([4095, 4096, 4097, 6000, 65535, 65536, 65537, 65559, 70000])
         if r.random() < 0.7:
             return r.choice(NASTY)
         return bytes(r.randrange(256) for _ in range(r.randrange(0, 6)))
@@ -262,8 +267,8 @@ class Gen:
                 sub = [self.scalar_op(kname + "ab"[i], "event")]
                 elems.append({"m": "Object", "f": sub} if r.random() < 0.5 else {"m": "Dict", "f": sub})
             return [{"m": "Array", "k": K, "e": elems, "cus": r.random() < 0.3}], need
-        if cls in ("slice0", "slice2"):
-            return [self.slice_op(kname, int(cls[-1]), builder)], need
+        if cls in ("slice0", "slice2", "slice24", "slice256"):
+            return [self.slice_op(kname, int(cls[5:]), builder)], need
         if cls in ("everrs0", "everrs2"):
             n = int(cls[-1])
             return [{"m": "Errs", "k": K, "v": {"t": "[]error", "ss": [b64(self.bytes_()) if r.random() < 0.8 else None for _ in range(n)], "nil": n == 0 and r.random() < 0.5}}], need
